@@ -593,13 +593,8 @@ func runInBubble(cs Case, res *Result, dial DialFunc) {
 	ends := [2]*memnet.Conn{atts[0].COut, atts[0].CIn}
 	switch f.Kind {
 	case "io":
-		var io memnet.Fault
-		for _, x := range memnet.IOFaults {
-			if x.String() == f.What {
-				io = x
-			}
-		}
-		if io == memnet.FaultNone {
+		io, ok := memnet.FaultByName(f.What)
+		if !ok {
 			res.Infra = "unknown io fault " + f.What
 			return
 		}
